@@ -61,11 +61,13 @@ def main():
         res["compiles"] = rcc == 0
         run("find %s -name __pycache__ -type d -prune -exec rm -rf {} +" % wt)
         if do_tests:
-            rct, outt = run(["/venv/bin/python", "-m", "pytest", "-q", "-p", "no:cacheprovider", "--timeout=900", "--continue-on-collection-errors", "-x" if False else "-q", "tests"], cwd=wt, env=env, timeout=3000)
+            rct, outt = run(["/venv/bin/python", "-m", "pytest", "-q", "-p", "no:cacheprovider", "--timeout=900", "--continue-on-collection-errors", "tests"], cwd=wt, env=env, timeout=3000)
             failed = set(re.findall(r"^(?:FAILED|ERROR) \S+::(\w+)", outt, re.M))
             res["tests_failed"] = sorted(failed)
-            res["tests_summary"] = outt.strip().splitlines()[-1] if outt.strip() else ""
-            res["tests_ok"] = failed <= ALWAYS_FAIL and " passed" in res["tests_summary"]
+            summ = [l for l in outt.splitlines() if re.search(r"\d+ passed", l)]
+            res["tests_summary"] = summ[-1].strip() if summ else (outt.strip().splitlines()[-1] if outt.strip() else "")
+            mpass = re.search(r"(\d+) passed", res["tests_summary"])
+            res["tests_ok"] = failed <= ALWAYS_FAIL and bool(mpass) and int(mpass.group(1)) >= 128
         else:
             res["tests_ok"] = None
         caught = {}
